@@ -1,6 +1,7 @@
 import Moclo.Model.Assembly
 import Moclo.Model.Cache
 import Moclo.Model.Registry
+import Moclo.Model.Directory
 /-!
 # Line protocol of the correspondence check
 
@@ -252,6 +253,20 @@ def step (line : String) : String :=
       let r : Reg Nat Nat := Reg.combine ms
       sepList "," (r.map (fun e => s!"{e.1}:{e.2}"))
     | none => "bad-op"
+  | ["DIR", ci, exts, entries, probes] =>
+    -- names are `n` followed by comma-separated character codes; entries `name:1` (regular file) / `name:0`
+    let parseName := fun (n : String) =>
+      if n.startsWith "n" then ((n.drop 1).toString.splitOn "," |>.filter (· != "")).mapM String.toNat? else none
+    let parseEntry := fun (e : String) => match e.splitOn ":" with
+      | [n, f] => do pure ({ name := ← parseName n, isFile := f == "1" } : Dir.Entry)
+      | _ => none
+    match (splitList ";" exts).mapM parseName, (splitList ";" entries).mapM parseEntry,
+          (splitList ";" probes).mapM parseName with
+    | some xs, some dir, some ps =>
+      let ks := Dir.keys (ci == "1") xs dir
+      tab ["ok", sepList ";" (ks.map (fun k => "n" ++ ",".intercalate (k.map toString))),
+           String.ofList (ps.map (fun k => if (Dir.lookup xs dir k).isSome then '1' else '0'))]
+    | _, _, _ => "bad-op"
   | ["RESIST", table, feats] =>
     let parsePair := fun (e : String) => match e.splitOn ":" with
       | [k, v] => do pure ((← k.toNat?), (← v.toNat?))
